@@ -135,6 +135,25 @@ static std::string json_escape(const std::string &s)
 }
 
 // ------------------------------------------------------------ case creation
+// Coverage builds (./check coverage <ID>): forked workers leave through _exit, so the profile is
+// written explicitly, one file per worker process.
+#ifdef VPBT_COVERAGE
+extern "C" int __llvm_profile_write_file(void);
+extern "C" void __llvm_profile_set_filename(const char *);
+static void cov_dump()
+{
+    const char *dir = getenv("VPBT_COV_DIR");
+    if (!dir)
+        return;
+    static char name[512];
+    snprintf(name, sizeof name, "%s/w-%d.profraw", dir, (int)getpid());
+    __llvm_profile_set_filename(name);
+    __llvm_profile_write_file();
+}
+#else
+static inline void cov_dump() {}
+#endif
+
 struct Opts
 {
     std::string prop = "C00";
@@ -782,6 +801,7 @@ static void worker_main(const Opts &o, const Target &t, int widx, uint64_t first
         }
     }
     flush();
+    cov_dump();
     _exit(0);
 }
 
